@@ -282,7 +282,30 @@ func (vc *FuncVC) heldTerm(st *State, g *Guarded, ref string) string {
 	return sel(arr, ref)
 }
 
+// cellGuard: the address is a captured variable declared `guarded-cell x by mu` in the contract.
+func (vc *FuncVC) cellGuard(st *State, a *Addr) (string, bool) {
+	if vc.contract == nil || len(st.frames) == 0 || a.Idx != nil {
+		return "", false
+	}
+	for _, gc := range vc.contract.GuardedCells {
+		cell, ok1 := vc.entryVars[gc[0]].(V)
+		mu, ok2 := vc.entryVars[gc[1]].(V)
+		if ok1 && ok2 && cell.T == a.Ref.T {
+			arr, ok := st.heap["held@Cell_sync"]
+			if !ok {
+				arr = zeroIntArr()
+			}
+			return sel(arr, mu.T), true
+		}
+	}
+	return "", false
+}
+
 func (vc *FuncVC) checkRead(st *State, a *Addr, instr ssa.Instruction) {
+	if h, ok := vc.cellGuard(st, a); ok {
+		vc.addOblig(st, "lock", "lock/read-of-guarded-cell"+vc.instrOrd(instr, "load")+"/under-lock", vc.lockTags(), app(">=", h, "1"))
+		return
+	}
 	if st.freshRefs[a.Ref.T] {
 		return // object created by this activation: not shared yet
 	}
@@ -292,6 +315,10 @@ func (vc *FuncVC) checkRead(st *State, a *Addr, instr ssa.Instruction) {
 }
 
 func (vc *FuncVC) checkWrite(st *State, a *Addr, instr ssa.Instruction) {
+	if h, ok := vc.cellGuard(st, a); ok {
+		vc.addOblig(st, "lock", "lock/write-of-guarded-cell"+vc.instrOrd(instr, "store")+"/under-lock", vc.lockTags(), app(">=", h, "1"))
+		return
+	}
 	if st.freshRefs[a.Ref.T] {
 		return
 	}
